@@ -847,6 +847,283 @@ Example C06_remove_after_refinement_instance :
    eqLQ (c_U cI) (snd QV) = true /\ eqLLQ (c_P cI) (fst QV) = true).
 Proof. cbv zeta. repeat split; vm_compute; congruence. Qed.
 
+
+From NV Require Import Proofs.KnotRemRefineLift.
+
+From Coq Require Import Permutation.
+From NV Require Import Proofs.RefineDefault Proofs.RefineOp Proofs.KnotRemMore Proofs.KnotRemMoreRefine Proofs.KnotRemMoreOrder Proofs.KnotRemMoreExamples.
+(* new: *)
+From NV Require Import Proofs.KnotRemRefineLift.
+
+(* ====================== REMOVAL AFTER refine_knotvector ON SURFACES AND VOLUMES, ANY ORDER (Proofs/KnotRemRefineLift.v) ======================
+   Lifts C06_remove_after_refinement_any_order / C06_remove_after_refine_knotvector_curve to surfaces and volumes.  Vocabulary:
+   swf / vwf (Proofs/InsertOpSurf.v) = valid surface / volume with points of dimension dim; default_ok (Proofs/RefineOp.v) = the
+   hypotheses of C05_refine_surface_correct / C05_refine_volume_correct for a refined direction; refine_L p U d = the d-fold bisected
+   list of the distinct knots of U[p:-p].  A removal schedule T is a list of single-direction calls (direction, (knot, count)):
+   srm / vrm run remove_knot(obj, [x, None(, None)], [n, 0(, 0)]) etc.; sproj d T / vproj d T = the calls of direction d in their
+   order; default_calls tol p U d L says that L lists every value mk of refine_L p U d exactly once, in ANY order, with the count
+   p - mult_U(mk) (= the number of copies the refinement inserted; 0 = nothing to do), and that L is empty when d = 0. *)
+
+(* [G] THE SURFACE STATEMENT.  operations.refine_knotvector(surf, [du, dv]) (any subset of directions: density 0 = not refined)
+   followed by remove_knot of every refined knot with its count in its direction, the calls of BOTH directions in ANY order
+   (arbitrarily interleaved): (a) the original surface record comes back - degrees, both knot vectors, both sizes, the whole
+   control net; (b) no call raises; (c) after every prefix of the schedule the surface is valid, complete and has the points of
+   the original surface (every coordinate, every parameter pair).  tol = tolerance of A5.4's alpha test and of the multiplicity
+   search, tol2 = squared removal tolerance, both >= 0. *)
+Theorem C06_surface_remove_after_refine_knotvector :
+  forall (tol tol2 : R) check (dim : nat) (g g' : surf (T:=R)) params (T : list (sdir * (R * nat))),
+  (0 <= tol)%R -> (0 <= tol2)%R -> swf g dim -> length (s_P g) = (s_sv g * s_su g)%nat ->
+  (dens params 0 <> 0%nat -> default_ok tol (s_pu g) (s_Uu g) (s_su g) (dens params 0)) ->
+  (dens params 1 <> 0%nat -> default_ok tol (s_pv g) (s_Uv g) (s_sv g) (dens params 1)) ->
+  refine_surf Rops tol check g params = (g', false) ->
+  default_calls tol (s_pu g) (s_Uu g) (dens params 0) (sproj sdU T) ->
+  default_calls tol (s_pv g) (s_Uv g) (dens params 1) (sproj sdV T) ->
+  let run := fold_left (fun h t => fst (srm tol tol2 h t)) in
+  run T g' = g /\
+  (forall T1 t T2, T = T1 ++ t :: T2 -> snd (srm tol tol2 (run T1 g') t) = false) /\
+  (forall T1 T2, T = T1 ++ T2 ->
+     swf (run T1 g') dim /\ length (s_P (run T1 g')) = (s_sv (run T1 g') * s_su (run T1 g'))%nat /\
+     forall c tu tv, (c < dim)%nat -> surf_pt (run T1 g') c tu tv = surf_pt g c tu tv).
+Proof. exact surf_remove_after_refine_knotvector. Qed.
+Print Assumptions C06_surface_remove_after_refine_knotvector.
+
+(* [G] THE VOLUME STATEMENT: refine_knotvector(vol, [du, dv, dw]), then the removal calls of the three directions in ANY order *)
+Theorem C06_volume_remove_after_refine_knotvector :
+  forall (tol tol2 : R) check (dim : nat) (g g' : vol (T:=R)) params (T : list (vdir * (R * nat))),
+  (0 <= tol)%R -> (0 <= tol2)%R -> (1 <= dim)%nat -> vwf g dim -> length (v_P g) = (v_su g * v_sv g * v_sw g)%nat ->
+  (dens params 0 <> 0%nat -> default_ok tol (v_pu g) (v_Uu g) (v_su g) (dens params 0)) ->
+  (dens params 1 <> 0%nat -> default_ok tol (v_pv g) (v_Uv g) (v_sv g) (dens params 1)) ->
+  (dens params 2 <> 0%nat -> default_ok tol (v_pw g) (v_Uw g) (v_sw g) (dens params 2)) ->
+  refine_vol Rops tol check g params = (g', false) ->
+  default_calls tol (v_pu g) (v_Uu g) (dens params 0) (vproj vdU T) ->
+  default_calls tol (v_pv g) (v_Uv g) (dens params 1) (vproj vdV T) ->
+  default_calls tol (v_pw g) (v_Uw g) (dens params 2) (vproj vdW T) ->
+  let run := fold_left (fun h t => fst (vrm tol tol2 h t)) in
+  run T g' = g /\
+  (forall T1 t T2, T = T1 ++ t :: T2 -> snd (vrm tol tol2 (run T1 g') t) = false) /\
+  (forall T1 T2, T = T1 ++ T2 ->
+     vwf (run T1 g') dim /\ length (v_P (run T1 g')) = (v_su (run T1 g') * v_sv (run T1 g') * v_sw (run T1 g'))%nat /\
+     forall c tu tv tw, (c < dim)%nat -> vol_pt (run T1 g') c tu tv tw = vol_pt g c tu tv tw).
+Proof. exact vol_remove_after_refine_knotvector. Qed.
+Print Assumptions C06_volume_remove_after_refine_knotvector.
+
+(* [G] the plainest reading, no hypothesis on a schedule: every refined knot with its count, direction by direction in the
+   reverse order of the refinement (v then u / w, v, u), the values of a direction in the order of the bisected list
+   (default_sched = that list of calls, empty for density 0) *)
+Theorem C06_surface_remove_after_refine_knotvector_reverse_order :
+  forall (tol tol2 : R) check (dim : nat) (g g' : surf (T:=R)) params,
+  (0 <= tol)%R -> (0 <= tol2)%R -> swf g dim -> length (s_P g) = (s_sv g * s_su g)%nat ->
+  (dens params 0 <> 0%nat -> default_ok tol (s_pu g) (s_Uu g) (s_su g) (dens params 0)) ->
+  (dens params 1 <> 0%nat -> default_ok tol (s_pv g) (s_Uv g) (s_sv g) (dens params 1)) ->
+  refine_surf Rops tol check g params = (g', false) ->
+  let T := map (pair sdV) (default_sched tol (s_pv g) (s_Uv g) (dens params 1)) ++
+           map (pair sdU) (default_sched tol (s_pu g) (s_Uu g) (dens params 0)) in
+  fold_left (fun h t => fst (srm tol tol2 h t)) T g' = g /\
+  forall c tu tv, (c < dim)%nat -> surf_pt g' c tu tv = surf_pt g c tu tv.
+Proof. exact surf_remove_after_refine_knotvector_rev. Qed.
+Print Assumptions C06_surface_remove_after_refine_knotvector_reverse_order.
+
+Theorem C06_volume_remove_after_refine_knotvector_reverse_order :
+  forall (tol tol2 : R) check (dim : nat) (g g' : vol (T:=R)) params,
+  (0 <= tol)%R -> (0 <= tol2)%R -> (1 <= dim)%nat -> vwf g dim -> length (v_P g) = (v_su g * v_sv g * v_sw g)%nat ->
+  (dens params 0 <> 0%nat -> default_ok tol (v_pu g) (v_Uu g) (v_su g) (dens params 0)) ->
+  (dens params 1 <> 0%nat -> default_ok tol (v_pv g) (v_Uv g) (v_sv g) (dens params 1)) ->
+  (dens params 2 <> 0%nat -> default_ok tol (v_pw g) (v_Uw g) (v_sw g) (dens params 2)) ->
+  refine_vol Rops tol check g params = (g', false) ->
+  let T := map (pair vdW) (default_sched tol (v_pw g) (v_Uw g) (dens params 2)) ++
+           map (pair vdV) (default_sched tol (v_pv g) (v_Uv g) (dens params 1)) ++
+           map (pair vdU) (default_sched tol (v_pu g) (v_Uu g) (dens params 0)) in
+  fold_left (fun h t => fst (vrm tol tol2 h t)) T g' = g /\
+  forall c tu tv tw, (c < dim)%nat -> vol_pt g' c tu tv tw = vol_pt g c tu tv tw.
+Proof. exact vol_remove_after_refine_knotvector_rev. Qed.
+Print Assumptions C06_volume_remove_after_refine_knotvector_reverse_order.
+
+(* [G] the same for ANY admissible lists of new knots (hypotheses of C05_refine_preserves_curve per refined direction:
+   RefineOp.refine_ok = p >= 1, sorted U of length n + p + 1, X non-empty, sorted, inside the half-open domain, knots above a new
+   knot at least tol away, no multiplicity above p afterwards).  dir_refined tol tolm p U n oX L: the direction is not refined
+   (oX = None, and then L = []) or refined with the list X (oX = Some X: refine_ok, the multiplicity tolerance tolm does not confuse
+   a new knot with a different knot, and the calls L expand to a rearrangement of X: any order, one copy per call, all copies in
+   one call, or anything in between).  surfRU / surfRV / volRU / volRV / volRW tol g X = the record refine_knotvector builds in one
+   direction from the list X (C06_refine_builds_these_records below); ..o = the optional version. *)
+Theorem C06_surface_remove_after_refinement_lists :
+  forall (tol tolm tol2 : R) (dim : nat) (g : surf (T:=R)) (oXu oXv : option (list R)) (T : list (sdir * (R * nat))),
+  (0 <= tolm)%R -> (0 <= tol2)%R -> swf g dim -> length (s_P g) = (s_sv g * s_su g)%nat ->
+  dir_refined tol tolm (s_pu g) (s_Uu g) (s_su g) oXu (sproj sdU T) ->
+  dir_refined tol tolm (s_pv g) (s_Uv g) (s_sv g) oXv (sproj sdV T) ->
+  let g2 := surfRVo tol (surfRUo tol g oXu) oXv in
+  let run := fold_left (fun h t => fst (srm tolm tol2 h t)) in
+  run T g2 = g /\
+  (forall T1 t T2, T = T1 ++ t :: T2 -> snd (srm tolm tol2 (run T1 g2) t) = false) /\
+  (forall T1 T2, T = T1 ++ T2 ->
+     swf (run T1 g2) dim /\ length (s_P (run T1 g2)) = (s_sv (run T1 g2) * s_su (run T1 g2))%nat /\
+     forall c tu tv, (c < dim)%nat -> surf_pt (run T1 g2) c tu tv = surf_pt g c tu tv).
+Proof. exact surf_remove_after_refine. Qed.
+Print Assumptions C06_surface_remove_after_refinement_lists.
+
+Theorem C06_volume_remove_after_refinement_lists :
+  forall (tol tolm tol2 : R) (dim : nat) (g : vol (T:=R)) (oXu oXv oXw : option (list R)) (T : list (vdir * (R * nat))),
+  (0 <= tolm)%R -> (0 <= tol2)%R -> (1 <= dim)%nat -> vwf g dim -> length (v_P g) = (v_su g * v_sv g * v_sw g)%nat ->
+  dir_refined tol tolm (v_pu g) (v_Uu g) (v_su g) oXu (vproj vdU T) ->
+  dir_refined tol tolm (v_pv g) (v_Uv g) (v_sv g) oXv (vproj vdV T) ->
+  dir_refined tol tolm (v_pw g) (v_Uw g) (v_sw g) oXw (vproj vdW T) ->
+  let g3 := volRWo tol (volRVo tol (volRUo tol g oXu) oXv) oXw in
+  let run := fold_left (fun h t => fst (vrm tolm tol2 h t)) in
+  run T g3 = g /\
+  (forall T1 t T2, T = T1 ++ t :: T2 -> snd (vrm tolm tol2 (run T1 g3) t) = false) /\
+  (forall T1 T2, T = T1 ++ T2 ->
+     vwf (run T1 g3) dim /\ length (v_P (run T1 g3)) = (v_su (run T1 g3) * v_sv (run T1 g3) * v_sw (run T1 g3))%nat /\
+     forall c tu tv tw, (c < dim)%nat -> vol_pt (run T1 g3) c tu tv tw = vol_pt g c tu tv tw).
+Proof. exact vol_remove_after_refine. Qed.
+Print Assumptions C06_volume_remove_after_refinement_lists.
+
+(* [G] "... or fewer": removing only SOME of the refined knots (the calls T1: any knots of any direction, any order, any grouping)
+   while the calls T2 are not made leaves EXACTLY the object refine_knotvector builds from the remaining lists (the knots of T2);
+   no call raises *)
+Theorem C06_surface_remove_some_after_refinement :
+  forall (tol tolm tol2 : R) (dim : nat) (g : surf (T:=R)) (oXu oXv oXu' oXv' : option (list R)) (T1 T2 : list (sdir * (R * nat))),
+  (0 <= tolm)%R -> (0 <= tol2)%R -> swf g dim -> length (s_P g) = (s_sv g * s_su g)%nat ->
+  dir_refined tol tolm (s_pu g) (s_Uu g) (s_su g) oXu (sproj sdU (T1 ++ T2)) ->
+  dir_refined tol tolm (s_pv g) (s_Uv g) (s_sv g) oXv (sproj sdV (T1 ++ T2)) ->
+  dir_refined tol tolm (s_pu g) (s_Uu g) (s_su g) oXu' (sproj sdU T2) ->
+  dir_refined tol tolm (s_pv g) (s_Uv g) (s_sv g) oXv' (sproj sdV T2) ->
+  let g2 := surfRVo tol (surfRUo tol g oXu) oXv in
+  let run := fold_left (fun h t => fst (srm tolm tol2 h t)) in
+  run T1 g2 = surfRVo tol (surfRUo tol g oXu') oXv' /\
+  (forall Ta t Tb, T1 = Ta ++ t :: Tb -> snd (srm tolm tol2 (run Ta g2) t) = false).
+Proof. exact surf_remove_some_after_refine. Qed.
+Print Assumptions C06_surface_remove_some_after_refinement.
+
+Theorem C06_volume_remove_some_after_refinement :
+  forall (tol tolm tol2 : R) (dim : nat) (g : vol (T:=R)) (oXu oXv oXw oXu' oXv' oXw' : option (list R)) (T1 T2 : list (vdir * (R * nat))),
+  (0 <= tolm)%R -> (0 <= tol2)%R -> (1 <= dim)%nat -> vwf g dim -> length (v_P g) = (v_su g * v_sv g * v_sw g)%nat ->
+  dir_refined tol tolm (v_pu g) (v_Uu g) (v_su g) oXu (vproj vdU (T1 ++ T2)) ->
+  dir_refined tol tolm (v_pv g) (v_Uv g) (v_sv g) oXv (vproj vdV (T1 ++ T2)) ->
+  dir_refined tol tolm (v_pw g) (v_Uw g) (v_sw g) oXw (vproj vdW (T1 ++ T2)) ->
+  dir_refined tol tolm (v_pu g) (v_Uu g) (v_su g) oXu' (vproj vdU T2) ->
+  dir_refined tol tolm (v_pv g) (v_Uv g) (v_sv g) oXv' (vproj vdV T2) ->
+  dir_refined tol tolm (v_pw g) (v_Uw g) (v_sw g) oXw' (vproj vdW T2) ->
+  let g3 := volRWo tol (volRVo tol (volRUo tol g oXu) oXv) oXw in
+  let run := fold_left (fun h t => fst (vrm tolm tol2 h t)) in
+  run T1 g3 = volRWo tol (volRVo tol (volRUo tol g oXu') oXv') oXw' /\
+  (forall Ta t Tb, T1 = Ta ++ t :: Tb -> snd (vrm tolm tol2 (run Ta g3) t) = false).
+Proof. exact vol_remove_some_after_refine. Qed.
+Print Assumptions C06_volume_remove_some_after_refinement.
+
+(* [G] a remove_knot call naming several directions at once is the sequence of the single-direction calls u, v(, w) (a raise stops the
+   processing), so the statements above cover such calls as well *)
+Theorem C06_combined_removal_call_is_sequence :
+  (forall (tolm tol2 : R) (g : surf (T:=R)) (x y : R) (n m : nat),
+     remove_knot_surf Rops tolm tol2 true g [Some x; Some y] [Z.of_nat n; Z.of_nat m]
+     = let '(g1, r) := srm tolm tol2 g (sdU, (x, n)) in if r then (g1, true) else srm tolm tol2 g1 (sdV, (y, m))) /\
+  (forall (tolm tol2 : R) (g : vol (T:=R)) (x y z : R) (n m k : nat),
+     remove_knot_vol Rops tolm tol2 true g [Some x; Some y; Some z] [Z.of_nat n; Z.of_nat m; Z.of_nat k]
+     = let '(g1, r1) := vrm tolm tol2 g (vdU, (x, n)) in if r1 then (g1, true) else
+       let '(g2, r2) := vrm tolm tol2 g1 (vdV, (y, m)) in if r2 then (g2, true) else vrm tolm tol2 g2 (vdW, (z, k))).
+Proof. split; [exact srm_both|exact vrm_all]. Qed.
+Print Assumptions C06_combined_removal_call_is_sequence.
+
+(* [G] surfRU ... volRW are what the model of operations.refine_knotvector builds in one direction when helpers.knot_refinement's
+   input handling (refine_plan) yields the list X *)
+Theorem C06_refine_builds_these_records : forall (tol : R) (d : nat) (X : list R),
+  (forall g : surf (T:=R), refine_plan Rops tol true (s_pu g) (s_Uu g) None [] d = Ok X -> refine_ok tol (s_pu g) (s_Uu g) (s_su g) X ->
+     refine_surf_u Rops tol g d = (surfRU tol g X, false)) /\
+  (forall g : surf (T:=R), refine_plan Rops tol true (s_pv g) (s_Uv g) None [] d = Ok X -> refine_ok tol (s_pv g) (s_Uv g) (s_sv g) X ->
+     refine_surf_v Rops tol g d = (surfRV tol g X, false)) /\
+  (forall g : vol (T:=R), refine_plan Rops tol true (v_pu g) (v_Uu g) None [] d = Ok X -> refine_ok tol (v_pu g) (v_Uu g) (v_su g) X ->
+     refine_vol_u Rops tol g d = (volRU tol g X, false)) /\
+  (forall g : vol (T:=R), refine_plan Rops tol true (v_pv g) (v_Uv g) None [] d = Ok X -> refine_ok tol (v_pv g) (v_Uv g) (v_sv g) X ->
+     refine_vol_v Rops tol g d = (volRV tol g X, false)) /\
+  (forall g : vol (T:=R), refine_plan Rops tol true (v_pw g) (v_Uw g) None [] d = Ok X -> refine_ok tol (v_pw g) (v_Uw g) (v_sw g) X ->
+     refine_vol_w Rops tol g d = (volRW tol g X, false)).
+Proof.
+  intros tol d X. split; [|split; [|split; [|split]]]; intros g H1 H2.
+  - exact (refine_surf_u_is tol g d X H1 H2).
+  - exact (refine_surf_v_is tol g d X H1 H2).
+  - exact (refine_vol_u_is tol g d X H1 H2).
+  - exact (refine_vol_v_is tol g d X H1 H2).
+  - exact (refine_vol_w_is tol g d X H1 H2).
+Qed.
+Print Assumptions C06_refine_builds_these_records.
+
+(* ---- non-vacuity over the REALS (Proofs/KnotRemRefineLift.v, section 8): the biquadratic 3 x 4 surface exGR, u refined with
+        exX3 = [1/3; 1/3; 2/3], v with exXR = [1/4; 1/4; 1/2; 3/4; 3/4], removed along the interleaved schedule exTS =
+        v:(1/2,1) u:(1/3,1) v:(3/4,2) u:(2/3,1) v:(1/4,1) u:(1/3,1) v:(1/4,1); the 3 x 2 x 3 volume exVR of degrees (2,1,2), refined
+        with exX3, exX1 = [1/2], exX3, removed along exTV = w:(2/3,1) u:(1/3,2) v:(1/2,1) w:(1/3,1) u:(2/3,1) w:(1/3,1):
+        every hypothesis of the ..._lists theorems holds, hence the conclusions ---- *)
+Example C06_surface_refine_remove_hypotheses_satisfiable :
+  (0 <= 1/1000)%R /\ (0 <= 1/1000000)%R /\ swf exGR 3 /\ length (s_P exGR) = (s_sv exGR * s_su exGR)%nat /\
+  dir_refined (1/1000) (1/1000) (s_pu exGR) (s_Uu exGR) (s_su exGR) (Some exX3) (sproj sdU exTS) /\
+  dir_refined (1/1000) (1/1000) (s_pv exGR) (s_Uv exGR) (s_sv exGR) (Some exXR) (sproj sdV exTS).
+Proof. exact surf_refine_remove_hypotheses_satisfiable. Qed.
+
+Example C06_surface_refine_remove_real_instance :
+  let g2 := surfRV (1/1000) (surfRU (1/1000) exGR exX3) exXR in
+  let run := fold_left (fun h t => fst (srm (1/1000) (1/1000000) h t)) in
+  run exTS g2 = exGR /\
+  (forall T1 t T2, exTS = T1 ++ t :: T2 -> snd (srm (1/1000) (1/1000000) (run T1 g2) t) = false) /\
+  (forall T1 T2, exTS = T1 ++ T2 -> forall c tu tv, (c < 3)%nat -> surf_pt (run T1 g2) c tu tv = surf_pt exGR c tu tv).
+Proof. exact surf_refine_remove_instance. Qed.
+
+Example C06_volume_refine_remove_hypotheses_satisfiable :
+  (0 <= 1/1000)%R /\ (0 <= 1/1000000)%R /\ (1 <= 3)%nat /\ vwf exVR 3 /\ length (v_P exVR) = (v_su exVR * v_sv exVR * v_sw exVR)%nat /\
+  dir_refined (1/1000) (1/1000) (v_pu exVR) (v_Uu exVR) (v_su exVR) (Some exX3) (vproj vdU exTV) /\
+  dir_refined (1/1000) (1/1000) (v_pv exVR) (v_Uv exVR) (v_sv exVR) (Some exX1) (vproj vdV exTV) /\
+  dir_refined (1/1000) (1/1000) (v_pw exVR) (v_Uw exVR) (v_sw exVR) (Some exX3) (vproj vdW exTV).
+Proof. exact vol_refine_remove_hypotheses_satisfiable. Qed.
+
+Example C06_volume_refine_remove_real_instance :
+  let g3 := volRW (1/1000) (volRV (1/1000) (volRU (1/1000) exVR exX3) exX1) exX3 in
+  let run := fold_left (fun h t => fst (vrm (1/1000) (1/1000000) h t)) in
+  run exTV g3 = exVR /\
+  (forall T1 t T2, exTV = T1 ++ t :: T2 -> snd (vrm (1/1000) (1/1000000) (run T1 g3) t) = false) /\
+  (forall T1 T2, exTV = T1 ++ T2 -> forall c tu tv tw, (c < 3)%nat -> vol_pt (run T1 g3) c tu tv tw = vol_pt exVR c tu tv tw).
+Proof. exact vol_refine_remove_instance. Qed.
+
+(* ---- ... and at the executable instance (exact rationals, the model run by vm_compute): refine_knotvector with densities [1; 1] on
+        the 3 x 4 biquadratic surface (u: 1/2 twice; v: 1/4 twice, 1/2 once more, 3/4 twice -> 5 x 9), then remove_knot of every
+        value of the bisected lists with its count (0 for the domain ends), the u- and v-calls interleaved in a scrambled order;
+        densities [1; 1; 1] on the 3 x 2 x 3 volume of degrees (2,1,2) (-> 5 x 3 x 5), the calls of the three directions interleaved:
+        sizes, knot vectors and control nets of the original objects come back ---- *)
+Definition exSrl : @surf Q :=
+  mkS 2 2 [0;0;0;1;1;1]%Q [0;0;0;1#2;1;1;1]%Q 3 4
+    [[0;0;0];[0;1;1];[0;2;0];[0;3;2]; [1;0;1];[1;1;3];[1;2;1];[1;3;0]; [2;0;0];[2;1;1];[2;2;2];[2;3;1]]%Q.
+Example C06_surface_refine_remove_instance :
+  let tq := (1#100000000)%Q in let t2q := (1#1000000)%Q in
+  let r := refine_surf Qops tq true exSrl [1%nat; 1%nat] in
+  let rm := fun (g : @surf Q) (t : sdir * (Q * Z)) =>
+    match fst t with
+    | sdU => fst (remove_knot_surf Qops tq t2q true g [Some (fst (snd t)); None] [snd (snd t); 0%Z])
+    | sdV => fst (remove_knot_surf Qops tq t2q true g [None; Some (fst (snd t))] [0%Z; snd (snd t)])
+    end in
+  let gA := fold_left rm [(sdV, ((3#4)%Q, 2%Z)); (sdU, (1%Q, 0%Z)); (sdV, ((1#4)%Q, 2%Z)); (sdU, ((1#2)%Q, 2%Z)); (sdV, (1%Q, 0%Z));
+                          (sdV, ((1#2)%Q, 1%Z)); (sdU, (0%Q, 0%Z)); (sdV, (0%Q, 0%Z))] (fst r) in
+  snd r = false /\ s_su (fst r) = 5%nat /\ s_sv (fst r) = 9%nat /\ length (s_P (fst r)) = 45%nat /\
+  s_su gA = 3%nat /\ s_sv gA = 4%nat /\
+  eqLQ (s_Uu gA) (s_Uu exSrl) = true /\ eqLQ (s_Uv gA) (s_Uv exSrl) = true /\ eqLLQ (s_P gA) (s_P exSrl) = true.
+Proof. cbv zeta. repeat split; vm_compute; congruence. Qed.
+
+Definition exVrl : @vol Q :=
+  mkV 2 1 2 [0;0;0;1;1;1]%Q [0;0;1;1]%Q [0;0;0;1;1;1]%Q 3 2 3
+    [[0;0;0];[0;1;1];[1;0;2];[1;1;0];[2;0;1];[2;1;3]; [0;0;5];[0;1;4];[1;0;6];[1;1;7];[2;0;5];[2;1;4];
+     [0;0;9];[0;1;8];[1;0;9];[1;1;11];[2;0;10];[2;1;8]]%Q.
+Example C06_volume_refine_remove_instance :
+  let tq := (1#100000000)%Q in let t2q := (1#1000000)%Q in
+  let r := refine_vol Qops tq true exVrl [1%nat; 1%nat; 1%nat] in
+  let rm := fun (g : @vol Q) (t : vdir * (Q * Z)) =>
+    match fst t with
+    | vdU => fst (remove_knot_vol Qops tq t2q true g [Some (fst (snd t)); None; None] [snd (snd t); 0%Z; 0%Z])
+    | vdV => fst (remove_knot_vol Qops tq t2q true g [None; Some (fst (snd t)); None] [0%Z; snd (snd t); 0%Z])
+    | vdW => fst (remove_knot_vol Qops tq t2q true g [None; None; Some (fst (snd t))] [0%Z; 0%Z; snd (snd t)])
+    end in
+  let gA := fold_left rm [(vdW, (1%Q, 0%Z)); (vdU, ((1#2)%Q, 2%Z)); (vdV, ((1#2)%Q, 1%Z)); (vdW, ((1#2)%Q, 2%Z)); (vdU, (0%Q, 0%Z));
+                          (vdV, (1%Q, 0%Z)); (vdU, (1%Q, 0%Z)); (vdW, (0%Q, 0%Z)); (vdV, (0%Q, 0%Z))] (fst r) in
+  snd r = false /\ v_su (fst r) = 5%nat /\ v_sv (fst r) = 3%nat /\ v_sw (fst r) = 5%nat /\ length (v_P (fst r)) = 75%nat /\
+  v_su gA = 3%nat /\ v_sv gA = 2%nat /\ v_sw gA = 3%nat /\
+  eqLQ (v_Uu gA) (v_Uu exVrl) = true /\ eqLQ (v_Uv gA) (v_Uv exVrl) = true /\ eqLQ (v_Uw gA) (v_Uw exVrl) = true /\
+  eqLLQ (v_P gA) (v_P exVrl) = true.
+Proof. cbv zeta. repeat split; vm_compute; congruence. Qed.
+
+
 (* ====================== TRANSLATOR TIE (Proofs/GenTie*.v) ======================
    coq/Gen/*.v is the Gallina rendering of the Python source produced by harness/pytrans.py; every run of ./check regenerates it
    from /repo and compares it function by function with the committed text (evidence: translator_tie).  The theorems below say
